@@ -142,6 +142,8 @@ struct StructInfo {
 struct EnumInfo {
     id: usize,
     values: Vec<usize>,
+    /// qualification needed outside the namespace that declares the enum
+    prefix: String,
 }
 
 #[derive(Clone, Debug)]
@@ -296,7 +298,7 @@ impl<'r> Gen<'r> {
             Ty::Num(k, 1) => kind_name(*k).into(),
             Ty::Num(k, n) => format!("{}{}", kind_name(*k), n),
             Ty::Struct(i) => ph(self.structs[*i].id),
-            Ty::Enum(i) => ph(self.enums[*i].id),
+            Ty::Enum(i) => format!("{}{}", self.enums[*i].prefix, ph(self.enums[*i].id)),
             Ty::Array(inner, _) => self.type_name(inner),
         }
     }
@@ -586,7 +588,7 @@ impl<'r> Gen<'r> {
                 let e = self.rng.below(self.enums.len());
                 let v = *self.rng.pick(&self.enums[e].values.clone());
                 self.feature("enum-to-int");
-                return format!("(int){}::{}", ph(self.enums[e].id), ph(v));
+                return format!("(int){}{}::{}", self.enums[e].prefix, ph(self.enums[e].id), ph(v));
             }
             self.literal(k)
         } else {
@@ -909,9 +911,9 @@ impl<'r> Gen<'r> {
                 let v = *self.rng.pick(&vals);
                 if self.rng.chance(1, 3) {
                     self.feature("int-to-enum-cast");
-                    format!("({})({})", ph(self.enums[*e].id), self.full_expr(Kind::Int, 1))
+                    format!("({}{})({})", self.enums[*e].prefix.clone(), ph(self.enums[*e].id), self.full_expr(Kind::Int, 1))
                 } else {
-                    format!("{}::{}", ph(self.enums[*e].id), ph(v))
+                    format!("{}{}::{}", self.enums[*e].prefix, ph(self.enums[*e].id), ph(v))
                 }
             }
             Ty::Struct(_) | Ty::Array(..) => {
@@ -1261,7 +1263,7 @@ impl<'r> Gen<'r> {
             next += 1;
         }
         out.push_str(&format!("enum {}\n{{\n{}\n}};\n\n", ph(id), parts.join("\n")));
-        self.enums.push(EnumInfo { id, values });
+        self.enums.push(EnumInfo { id, values, prefix: String::new() });
         self.feature("enum");
     }
 
@@ -1577,6 +1579,11 @@ impl<'r> Gen<'r> {
                 let funcs_before = self.funcs.len();
                 let globals_before = self.globals.len();
                 let idents_before = self.idents.len();
+                let enums_before = self.enums.len();
+                if self.rng.chance(1, 3) {
+                    self.gen_enum(&mut out);
+                    self.feature("namespace-enum");
+                }
                 if self.rng.chance(1, 2) {
                     for _ in 0..1 + self.rng.below(2) {
                         self.gen_global(&mut out);
@@ -1615,6 +1622,9 @@ impl<'r> Gen<'r> {
                 }
                 for g in self.globals[globals_before..].iter_mut() {
                     g.prefix = format!("{}{}", prefix, g.prefix);
+                }
+                for e in self.enums[enums_before..].iter_mut() {
+                    e.prefix = format!("{}{}", prefix, e.prefix);
                 }
                 for i in idents_before..self.idents.len() {
                     if matches!(self.idents[i].kind, IdKind::Global | IdKind::Function) && !self.ns_marks.iter().any(|(j, _)| *j == i) {
